@@ -1,10 +1,10 @@
 package props
 
 import (
-	"errors"
 	"bytes"
 	"context"
 	"encoding/binary"
+	"errors"
 	"fmt"
 	"runtime"
 	"runtime/debug"
